@@ -128,6 +128,17 @@ theorem fanout_first_error (hN : cfg.svcs.Nodup) (hR : Reach cfg s) (ht : termin
         | some r => have := hI.accFn v r ha; rw [hv.2] at this; cases this
     · exact hs
 
+/-- **one call per service**: when the call has returned, the supplied function has been invoked exactly once for every
+    service of the project and for nothing else (also after a failure: no worker is skipped) -/
+theorem fanout_calls_once (hN : cfg.svcs.Nodup) (hR : Reach cfg s) (ht : terminal s) :
+    s.calls.Nodup ∧ ∀ v, v ∈ s.calls ↔ v ∈ cfg.svcs := by
+  have hI := inv_reach hN hR
+  refine ⟨hI.callsNodup, fun v => ⟨fun hv => hI.wSvcs v ((hI.callsW v).mp hv).1, fun hv => ?_⟩⟩
+  have h1 := hI.waitAll (.inr ht) v hv
+  have h2 := (hI.ret ht).2 v hv
+  refine (hI.callsW v).mpr ⟨h1, fun hs => ?_⟩
+  rw [hs] at h2; simp [live] at h2
+
 /-- **no data race on `newProject.Services`**: in no reachable state are two conflicting accesses to the field
     (the caller's read before its loop / after `Wait`, the collector's final store) enabled together -/
 theorem fanout_no_field_race (hN : cfg.svcs.Nodup) (hR : Reach cfg s) : ¬ RaceAt cfg s := by
